@@ -1,5 +1,6 @@
-\* C16, documentation run (not part of ./check): the two hypothetical designs one careless edit away from the code
-\* (Suite "show2") against the STRICT property.  TLC reports "Invariant AtMostOnce is violated" for the split latch
+\* C16, documentation run (not part of ./check): all hypothetical designs one careless edit away from the code
+\* (Suite "show2") together against the STRICT property; TLC stops at the first violation it meets.  One design at a
+\* time: Dispose_show_<design>.cfg (splitlatch, casfirst, snapclose, unbuf, lazyorder, claim, claim_fault, notifyto, finto).  TLC reports "Invariant AtMostOnce is violated" for the split latch
 \* (c1.LatchLoad c2.LatchLoad c1.LatchStore .. c2.LatchStore: every handler runs twice); with AtMostOnce removed it
 \* reports LeakFree for Start doing its CAS before SetCtx (start.StartCas x1.Load x1.Cas .. start.SetCtx start.Spawn)
 \* and for the unbuffered result channel of DisposeWithTimeout (tw.Timeout .. hlp.Send), and ConnOnce for
@@ -10,5 +11,5 @@ CONSTANTS
 INIT Init
 NEXT Next
 VIEW view
-INVARIANTS TypeOK AtMostOnce LeakFree ConnOnce
+INVARIANTS TypeOK AtMostOnce LeakFree ConnOnce StoredExact
 CHECK_DEADLOCK FALSE
